@@ -9,6 +9,10 @@
 //	U <init> <op>;<op>;…  |  <rec0>;<rec1>;…      ops without element values: a u p l c k<i>
 //	rec: <ret>/<head>,<n>,<len(vs)>/<Len>,<IsEmpty>/<len(Slice)>/<Each calls>/<Each calls when stopped after Len/2+1>/<Peek ok flags>
 //
+// and, for buffers of hundreds to thousands of slots (the scale stream, see big.go):
+//
+//	B <init> <op>;<op>;…  |  <rec0>;<rec1>;…      batched ops A<k> U<k> P<k> L<k> c o<j>; bounded records
+//
 // init: z (zero value), n (New()), s<k> (NewSize(k)); s<k>! = NewSize(k) with k > 2^48 panicked:
 // the allocation was refused by the runtime (oracle annotation, recomputed on replay).
 // op:   a<v> Add(v)   u<v> Push(v)   p Pop()   l PopLast()   c Clear()   k<i> Peek(i), any int
